@@ -35,8 +35,10 @@ KINDS = {
     "int-lit-bound-empty": ("u8", "#[default(7, bound())]", "7u8"),
     "str-into-bound-empty": ("M", '#[default("ab", bound())]', "M { v: 2, via: 2 }"),
     "method-call": ("u8", "#[default(sd(0).wrapping_add(3))]", "sd(0).wrapping_add(3)"),
+    # the expression names an item in scope that is called like the first field (`f0`): it is evaluated at the use site's scope, fields are not locals
+    "call-named-like-field": ("u8", "#[default(f0(2))]", "sd(2)"),
 }
-CORE_KINDS = list(KINDS)
+CORE_KINDS = [k for k in KINDS if k != "call-named-like-field"]
 
 
 def fields_decl(kind, kinds):
@@ -118,6 +120,8 @@ def build(name, shape, kinds, entry, variant_kind="named", type_value=None, nvar
                 pat = "T::V%d(%s)" % (defidx, ", ".join("g%d" % i for i in range(len(refs))))
             inner = "\n".join('            assert!(*g%d == %s, "field-%s-value");' % (i, ref, n) for i, (n, ref) in enumerate(refs))
             checks.append("    match &got {\n        %s => {\n%s\n        }\n        _ => assert!(false, \"default-variant\"),\n    }" % (pat, inner))
+    if "call-named-like-field" in kinds:
+        src += "fn f0(k: usize) -> u8 { sd(k) }\n"
     src += item + "\n"
     src += "pub fn check<S: Src>(s: &mut S) {\n    set_seeds(s);\n    let got: T = Default::default();\n%s\n}\n\n" % "\n".join(checks)
     src += e1.harness()
@@ -132,7 +136,10 @@ def run(tier):
     def add(*a, **k):
         progs.append(build("p%05d" % len(progs), *a, **k))
 
-    kinds = list(KINDS)
+    kinds = [k for k in KINDS if k != "call-named-like-field"]
+    add("struct", ["none-u8", "call-named-like-field"], "attr", "named")
+    add("enum", ["none-u8", "call-named-like-field", "int-lit"], "attr", "named")
+    add("struct", ["none-u8", "call-named-like-field"], "derive", "named")
     # every expression kind alone, in a named struct, a tuple struct and an enum variant
     for k in kinds:
         add("struct", [k], "attr", "named")
